@@ -100,6 +100,12 @@ func (mgr *bindingManager) create(addr net.Addr) *binding {
 	mgr.mutex.Lock()
 	defer mgr.mutex.Unlock()
 
+	// Two writers may both have found no binding for the peer: the second
+	// gets the binding the first has made, a peer has one channel number.
+	if existing, ok := mgr.addrMap[addr.String()]; ok {
+		return existing
+	}
+
 	// The next number may still be held by an earlier peer once the counter
 	// has wrapped: take the next free one, or none when all are in use.
 	number, free := uint16(0), false
